@@ -142,7 +142,7 @@ impl BitvectorExtended for Bitvector {
                 let result = apint::Int::from(self - rhs);
                 let signed_self = apint::Int::from(self.clone());
                 let signed_rhs = apint::Int::from(rhs.clone());
-                if (result.is_negative() && !signed_self.is_positive() && signed_rhs.is_negative())
+                if (result.is_negative() && signed_self.is_positive() && signed_rhs.is_negative())
                     || (result.is_positive()
                         && signed_self.is_negative()
                         && signed_rhs.is_positive())
